@@ -14,6 +14,9 @@ import os as _os
 _DEBUG = _os.environ.get('VERIF_DEBUG') == '1'
 
 
+INCREMENTAL_TIMEOUT_MS = 1500
+
+
 class HarnessError(Exception):
     """The machinery itself is wrong (non-reproducing counterexample, shim mismatch)."""
 
@@ -104,6 +107,7 @@ class Concrete(_Base):
         self.strict = strict
         self.failed = []
         self.reached = []
+        self.presets = None
 
     def _get(self, name, default):
         if name in self.inputs:
@@ -134,6 +138,8 @@ class Concrete(_Base):
         return float(Fraction(v)) if isinstance(v, str) else float(v)
 
     def choice(self, name, n):
+        if self.presets and name in self.presets:
+            return self.presets[name]
         return int(self._get(name, 0))
 
     def assume(self, cond):
@@ -178,9 +184,14 @@ class Sym(_Base):
         self.obligs = []
         self.violated_sites = set()
         self.npc = 0
+        self.qmodel = None
+        self.intervals = {}
 
     # ---- solver plumbing
-    def _query(self, *extra):
+    def _query(self, *extra, fresh=False):
+        """sat? of path condition + extra.  The incremental solver gets a short time
+        limit; on `unknown` the same query is re-decided by a fresh (non-incremental)
+        solver, which runs z3's full preprocessing, under the full limit."""
         st = self.ex.stats
         st.queries += 1
         t0 = time.perf_counter()
@@ -190,13 +201,32 @@ class Sym(_Base):
             s2.add(*extra)
             with open("/tmp/sx_last_query.smt2", "w") as f:
                 f.write(s2.to_smt2())
-        r = self.solver.check(*extra)
+        if fresh and not self.ex.tactic:
+            r = z3.unknown
+        else:
+            r = self.solver.check(*extra)
+        how = "inc"
+        if r == z3.sat:
+            self.qmodel = self.solver.model()
+        elif r == z3.unknown and not self.ex.tactic:
+            how = "fresh"
+            st.fresh_queries = getattr(st, "fresh_queries", 0) + 1
+            s2 = z3.Solver()
+            s2.set("timeout", self.ex.query_timeout_ms)
+            s2.add(self.solver.assertions())
+            s2.add(*extra)
+            r = s2.check()
+            if r == z3.sat:
+                self.qmodel = s2.model()
+            reason = s2.reason_unknown() if r == z3.unknown else ""
+        else:
+            reason = self.solver.reason_unknown() if r == z3.unknown else ""
         dt = time.perf_counter() - t0
         st.solver_s += dt
         if _DEBUG and dt > 0.5:
-            print(f"[query {dt:.1f}s -> {r}] assertions={len(self.solver.assertions())} extra={[str(e)[:200] for e in extra]}", flush=True)
+            print(f"[query {how} {dt:.1f}s -> {r}] assertions={len(self.solver.assertions())} extra={[str(e)[:200] for e in extra]}", flush=True)
         if r == z3.unknown:
-            raise Inconclusive(f"solver answered unknown: {self.solver.reason_unknown()}")
+            raise Inconclusive(f"solver answered unknown: {reason}")
         return r == z3.sat
 
     def _add(self, term):
@@ -210,7 +240,7 @@ class Sym(_Base):
         if self.model is None:
             if not self._query():
                 raise PathAbort()
-            self.model = self.solver.model()
+            self.model = self.qmodel
         return self.model
 
     # ---- decisions
@@ -235,7 +265,7 @@ class Sym(_Base):
         else:
             if self._query(term):
                 side = True
-                self.model = m = self.solver.model()
+                self.model = m = self.qmodel
             else:
                 # pc is feasible by invariant, so the other side is
                 self.trace.append(("b", 0))
@@ -247,6 +277,26 @@ class Sym(_Base):
         self.trace.append(("b", 1 if side else 0))
         self._add(term if side else nterm)
         return side
+
+    def prove(self, cond):
+        """Is cond implied by the path condition?  No fork, nothing added; the answer
+        is recorded in the trace so re-executions do not ask again."""
+        if cond is True or cond is False:
+            return cond
+        t = bterm(cond)
+        i = len(self.trace)
+        if i < len(self.prefix):
+            e = self.prefix[i]
+            if e[0] != "p":
+                raise Inconclusive("non-deterministic re-execution (prove)")
+            self.trace.append(e)
+            return bool(e[1])
+        if self.model is not None and not z3.is_true(self.model.eval(t, model_completion=True)):
+            r = False
+        else:
+            r = not self._query(z3.Not(t))
+        self.trace.append(("p", 1 if r else 0))
+        return r
 
     def concretize(self, x):
         if isinstance(x, int):
@@ -270,7 +320,7 @@ class Sym(_Base):
             self.model = None
             if not self._query(*excl):
                 raise PathAbort()
-            m = self.solver.model()
+            m = self.qmodel
         else:
             m = self._need_model()
         v = m.eval(x.t, model_completion=True).as_signed_long()
@@ -284,6 +334,10 @@ class Sym(_Base):
         return v
 
     def choice(self, name, n):
+        pre = self.ex.presets
+        if pre and name in pre:
+            self.inputs[name] = ("choice", pre[name])
+            return pre[name]
         i = len(self.trace)
         if i < len(self.prefix):
             e = self.prefix[i]
@@ -310,6 +364,7 @@ class Sym(_Base):
         self.model = None
         r = SymInt(t, lo, hi)
         self.inputs[name] = ("int", r)
+        self.intervals[t.get_id()] = (lo, hi)
         return r
 
     def bool_(self, name):
@@ -366,7 +421,7 @@ class Sym(_Base):
         if self.model is None:
             if not self._query():
                 raise PathAbort()
-            self.model = self.solver.model()
+            self.model = self.qmodel
 
     def oblige(self, term):
         self.obligs.append(term)
@@ -406,9 +461,9 @@ class Sym(_Base):
         nt = z3.Not(t)
         extra = []
         for _ in range(self.ex.max_known_rounds):
-            if not self._query(nt, *extra):
+            if not self._query(nt, *extra, fresh=self.ex.fresh_checks):
                 break
-            m = self.solver.model()
+            m = self.qmodel
             inputs = self.model_inputs(m)
             verdict, sym_pred = self.ex.on_counterexample(self, site, inputs, detail)
             if verdict == "known" and sym_pred is not None:
@@ -463,7 +518,7 @@ class Sym(_Base):
             self.ex.stats.obligations += len(self.obligs)
             if self._query(z3.Not(z3.And(*self.obligs))):
                 raise Inconclusive("a 32-bit no-overflow obligation could not be discharged: "
-                                   f"{self.model_inputs(self.solver.model())}")
+                                   f"{self.model_inputs(self.qmodel)}")
         return self._need_model()
 
 
@@ -472,7 +527,7 @@ class Explorer:
 
     def __init__(self, scenario, *, unit="", max_paths=20000, max_depth=400, max_fanout=300,
                  time_budget=None, query_timeout_ms=60000, on_counterexample=None, validate=True,
-                 max_known_rounds=8, tactic=None, ratio_floats=False):
+                 max_known_rounds=8, tactic=None, ratio_floats=False, fresh_checks=False, presets=None):
         self.scenario = scenario
         self.unit = unit
         self.max_paths = max_paths
@@ -482,8 +537,12 @@ class Explorer:
         self.validate = validate
         self.max_known_rounds = max_known_rounds
         self.solver = z3.Tactic(tactic).solver() if tactic else z3.Solver()
+        self.tactic = tactic
+        self.query_timeout_ms = query_timeout_ms
         self.ratio_floats = ratio_floats
-        self.solver.set("timeout", query_timeout_ms)
+        self.fresh_checks = fresh_checks
+        self.presets = presets
+        self.solver.set("timeout", query_timeout_ms if tactic else min(query_timeout_ms, INCREMENTAL_TIMEOUT_MS))
         self.frontier = [[]]
         self.stats = Stats()
         self.skolems = 0
@@ -562,6 +621,7 @@ class Explorer:
         modules; with concrete arguments every shim delegates to the real C code)
         and compare the observations."""
         cc = Concrete(inputs, strict=False)
+        cc.presets = self.presets
         try:
             self.scenario(cc)
         except PathAbort:
